@@ -290,7 +290,7 @@ class Gen:
 NO_ENC = ["storedbtc", "storedvbk", "storedalt"]   # built only from bytes (no public constructor path in the harness)
 TYPES = ["vbkendorsement", "altendorsement", "storedbtc", "storedvbk", "storedalt", "address", "coin", "output", "btctx", "btcblock", "vbkblock", "altblock", "keystones", "ctxinfo", "authctx", "merklepath", "vbkmerklepath", "pubdata",
          "vbktx", "vbkpoptx", "atv", "vtb", "popdata"]
-CHECKED = ["atv", "vtb", "popdata", "vbkblock", "btcblock"]
+CHECKED = ["atv", "vtb", "popdata", "vbkblock", "btcblock", "vbktx", "vbkpoptx", "pubdata", "address"]
 
 
 # --------------------------------------------------------------------------
@@ -766,3 +766,109 @@ def vtb_with_btctx(g, c, tx):
     pop = Rec((Rec((0xbb, c["TX_TYPE_VBK_POP_TX"])), g.address(), g.vbkblock(), tx, g.merklepath(), g.btcblock(),
                [g.btcblock() for _ in range(r.below(2))], r.bytes(r.below(73)), r.bytes(r.below(89))))
     return Rec((1, pop, g.vbkmerklepath(), g.vbkblock(low=True)))
+
+
+# --------------------------------------------------------------------------
+# C06 wave 2: checksum-correct adversarial address texts, plausible (check-passing) payloads, zero-length fields
+# --------------------------------------------------------------------------
+def _cs(data, n):
+    return b_enc(hashlib.sha256(data.encode()).digest(), B58)[:n]
+
+
+def adversarial_addresses(r, count):
+    """(wire type byte, bytes) whose TEXT (as the deserializer rebuilds it with EncodeBase58/59) carries a CORRECT checksum
+    but is unusual: base59-only character '0' inside a standard-looking text, multisig texts with '0' inside the data part,
+    m/n at and beyond their limits, wrong first character, standard text sent with the multisig wire byte and vice versa"""
+    out = []
+    while len(out) < count:
+        kind = r.below(6)
+        if kind == 0:      # standard shape, '0' somewhere in the first 25 characters
+            body = [B58[r.below(58)] for _ in range(24)]
+            for _ in range(r.range(1, 3)):
+                body[r.below(24)] = "0"
+            data = "V" + "".join(body)
+            out.append(("std-with-0", 3, b_dec(data + _cs(data, 5), B59)))
+        elif kind == 1:    # plain standard text over both wire type bytes
+            data = "V" + "".join(B58[r.below(58)] for _ in range(24))
+            text = data + _cs(data, 5)
+            out.append(("std-wire1", 1, b_dec(text, B58)))
+            out.append(("std-wire3", 3, b_dec(text, B59)))
+        elif kind == 2:    # multisig with m/n around their limits, correct 4-char checksum
+            n = r.choice([1, 2, 3, 57, 58])
+            m = r.choice([1, 2, n, n + 1 if n < 58 else 58, 58])
+            data = "V" + B58[m - 1] + B58[n - 1] + "".join(B58[r.below(58)] for _ in range(22))
+            out.append(("multisig-mn", 3, b_dec(data + _cs(data, 4) + "0", B59)))
+        elif kind == 3:    # multisig with '0' inside the data part (first 29 characters must be base58)
+            body = [B58[r.below(58)] for _ in range(24)]
+            body[r.below(24)] = "0"
+            data = "V" + "".join(body)
+            out.append(("multisig-with-0", 3, b_dec(data + _cs(data, 4) + "0", B59)))
+        elif kind == 4:    # wrong first character, otherwise consistent
+            data = r.choice("U1Wv2z") + "".join(B58[r.below(58)] for _ in range(24))
+            text = data + _cs(data, 5)
+            out.append(("bad-first-char", 1, b_dec(text, B58)))
+            out.append(("bad-first-char", 3, b_dec(text, B59)))
+        else:              # '0' in the checksum region of a standard text (can never match a base58 checksum)
+            data = "V" + "".join(B58[r.below(58)] for _ in range(24))
+            cs = list(_cs(data, 5))
+            cs[r.below(4)] = "0"
+            out.append(("std-0-in-checksum", 3, b_dec(data + "".join(cs), B59)))
+    return out[:count]
+
+
+def address_pop_bytes(addr):
+    text = b_enc(addr[1], B58 if addr[0] == 1 else B59)
+    return (b_dec(text[1:], B58 if addr[0] == 1 else B59) + bytes(15))[:15]
+
+
+def plausible_atv(g, c, src=None, outs=None, header=None, ctxinfo=None):
+    """an ATV that passes the cheap stateless checks of checkVbkTx (magic byte, fee, altchain id, context info, endorsed
+    header) so that the deeper ones (checkBlockHeader, signature) are reached"""
+    r = g.r
+    e = Enc(c)
+    pk = r.bytes(r.choice([0, 3, 33, 65, 88]))
+    src = src if src is not None else Rec(address_from_pubkey(pk))
+    outs = outs if outs is not None else [Rec((g.address(), r.below(1000))) for _ in range(r.below(3))]
+    alt = Rec((r.bytes(c["ALT_HASH_SIZE"]), r.bytes(c["ALT_HASH_SIZE"]), r.below(1000), r.below(1 << 31)))
+    header = e.altblock(alt) if header is None else header
+    ctx = Rec((Rec((r.below(1000), Rec((r.bytes(32), r.bytes(32))))), r.bytes(32)))
+    ctxinfo = e.authctx(ctx) if ctxinfo is None else ctxinfo
+    pub = Rec((0, header, ctxinfo, r.bytes(r.below(20))))
+    tx = Rec((Rec((0xbb, c["TX_TYPE_VBK_TX"])), src, 1000000 + r.below(1000), outs, r.below(100), pub,
+              r.bytes(r.choice([0, 70, 71, 72])), pk))
+    return Rec((1, tx, Rec((r.below(4), r.below(4), r.bytes(32), [r.bytes(32) for _ in range(r.below(3))])), g.vbkblock(low=True)))
+
+
+def plausible_vtb(g, c, addr=None):
+    """a VTB that passes checkVbkPopTx up to the signature check: contiguous publication bytes in the bitcoin tx,
+    empty merkle path whose root is the tx hash, no BTC context"""
+    r = g.r
+    e = Enc(c)
+    pk = r.bytes(r.choice([0, 3, 33, 65]))
+    addr = addr if addr is not None else Rec(address_from_pubkey(pk))
+    pub = g.vbkblock(low=True)
+    tx = r.bytes(r.below(30)) + e.vbkblock_raw(pub) + address_pop_bytes(addr) + r.bytes(r.below(30))
+    h = hashlib.sha256(hashlib.sha256(tx).digest()).digest()
+    bop = Rec((r.below(4), r.bytes(32), h[::-1], r.bits(32), 0x207fffff, r.bits(32)))
+    pop = Rec((Rec((0xbb, c["TX_TYPE_VBK_POP_TX"])), addr, pub, tx, Rec((0, [])), bop, [], r.bytes(r.choice([0, 70, 72])), pk))
+    return Rec((1, pop, Rec((r.below(4), r.below(4), r.bytes(32), [])), g.vbkblock(low=True)))
+
+
+def emptied_variants(v):
+    """every value obtained from v by making ONE variable-length part (byte string or list) empty"""
+    out = []
+
+    def walk(x, rebuild):
+        if isinstance(x, (bytes, bytearray)):
+            if len(x):
+                out.append(rebuild(b""))
+        elif isinstance(x, list):
+            if x:
+                out.append(rebuild([]))
+            for i, y in enumerate(x):
+                walk(y, lambda ny, i=i, x=x: rebuild(x[:i] + [ny] + x[i + 1:]))
+        elif isinstance(x, Rec):
+            for i, y in enumerate(x):
+                walk(y, lambda ny, i=i, x=x: rebuild(Rec(x[:i] + (ny,) + x[i + 1:])))
+    walk(v, lambda nv: nv)
+    return out
